@@ -112,8 +112,19 @@ def run_cp(case: dict, d: str, zero_weight_env: bool = False) -> Dict[str, Any]:
         _G.critical_path = _wrapped
     except Exception:
         pass
+    if case.get("case_no", 0) % 4 == 1:
+        # history: another window of the same rank is analysed first on the same object (whether that succeeds is not this case's business)
+        rng0 = random.Random(case["params"]["pseed"] + 99)
+        ann0, inst0 = draw_window(rng0, rows)
+        if (ann0, inst0) != (annotation, instance) and window_has_events(rows, ann0, inst0):
+            try:
+                ta.critical_path_analysis(rank=rank, annotation=ann0, instance_id=inst0)
+                res["analysed_before"] = [ann0, inst0]
+            except Exception:
+                pass
     try:
         out = ta.critical_path_analysis(rank=rank, annotation=annotation, instance_id=instance)
+        res["frames_altered"] = fw.frames_altered(case, ta, {rank: rows}, sym)
         if out is None:
             res["none"] = True
             return res, ta, None
